@@ -1,0 +1,94 @@
+//go:build verif
+
+package misc
+
+// Contracts for the deductive verifier in /verif (govc).  Comment-only file, compiled only with the
+// build tag `verif`; it adds no symbol.
+
+//@ tagset ALLM := C01 C02 C04 C06 C08 C09 C10 C11 C14 C15 C16 C03 C05 C07
+//@ tagset XF := C01 C04 C06
+
+//@ func GetEndian
+//@   trusted "uses unsafe to probe host byte order; contract = little-endian host (amd64), confirmed by running the real function (table back end of C06/C14)"
+//@   ensures result == littleEndian
+
+//@ func SHAKE128
+//@   ensures forall q :: 0 <= q && q < len(out) ==> out[q] == spec.shake(128, spec.sub(msg, len(msg)), len(msg), q)
+//@   assigns out
+
+//@ func SHAKE256
+//@   ensures forall q :: 0 <= q && q < len(out) ==> out[q] == spec.shake(256, spec.sub(msg, len(msg)), len(msg), q)
+//@   assigns out
+
+//@ func SHA256
+//@   trusted "crypto/sha256 is external: modelled as a deterministic function of the message bytes (T4); copy(out, digest) writes min(len(out),32) bytes"
+//@   ensures forall q :: 0 <= q && q < len(out) && q < 32 ==> out[q] == spec.sha256(spec.sub(msg, len(msg)), len(msg), q)
+//@   ensures forall q :: 32 <= q && q < len(out) ==> out[q] == old(out[q])
+//@   assigns out
+
+//@ func SetType
+//@   ensures addr[3] == typeValue && addr[4] == 0 && addr[5] == 0 && addr[6] == 0 && addr[7] == 0
+//@   ensures addr[0] == old(addr[0]) && addr[1] == old(addr[1]) && addr[2] == old(addr[2])
+//@   assigns *addr
+//@   loop 1 invariant 4 <= i && i <= 8 && addr[3] == typeValue && addr[0] == old(addr[0]) && addr[1] == old(addr[1]) && addr[2] == old(addr[2])
+//@   loop 1 invariant forall k_ :: 4 <= k_ && k_ < i ==> addr[k_] == 0
+
+//@ func SetOTSAddr
+//@   inline
+//@ func SetChainAddr
+//@   inline
+//@ func SetHashAddr
+//@   inline
+//@ func SetLTreeAddr
+//@   inline
+//@ func SetTreeHeight
+//@   inline
+//@ func SetTreeIndex
+//@   inline
+//@ func SetKeyAndMask
+//@   inline
+
+//@ func ToByteLittleEndian
+//@   requires len(out) >= bytes && bytes <= 64
+//@   ensures forall j :: 0 <= j && j < bytes ==> out[bytes-1-j] == spec.byte32(in, j)
+//@   assigns out[0:bytes]
+//@   loop 1 invariant -1 <= i && i <= bytes - 1 && in == spec.shr8(old(in), bytes-1-i)
+//@   loop 1 invariant forall j :: 0 <= j && j < bytes-1-i ==> out[bytes-1-j] == spec.byte32(old(in), j)
+//@   loop 1 invariant forall q :: q < 0 || q >= bytes ==> out[q] == old(out[q])
+
+//@ func ToByteBigEndian
+//@   requires len(out) >= bytes && bytes <= 64
+//@   ensures forall j :: 0 <= j && j < bytes ==> out[j] == spec.byte32(in, j)
+//@   assigns out[0:bytes]
+//@   loop 1 invariant 0 <= i && i <= bytes && in == spec.shr8(old(in), i)
+//@   loop 1 invariant forall j :: 0 <= j && j < i ==> out[j] == spec.byte32(old(in), j)
+//@   loop 1 invariant forall q :: q < 0 || q >= bytes ==> out[q] == old(out[q])
+
+//@ func AddrToByte
+//@   ensures forall i_, j :: 0 <= i_ && i_ < 8 && 0 <= j && j < 4 ==> out[4*i_+3-j] == spec.byte32(addr[i_], j)
+//@   assigns *out
+//@   loop 1 invariant 0 <= i && i <= 8
+//@   loop 1 invariant forall i_, j :: 0 <= i_ && i_ < i && 0 <= j && j < 4 ==> out[4*i_+3-j] == spec.byte32(addr[i_], j)
+//@   loop 2 unreachable
+
+//@ func mnemonicToBin
+//@   props C14 C10 C09 C15
+//@   panics "word count = %d must be even"
+//@   panics "invalid word in mnemonic"
+//@   loop 1 invariant 0 <= range_1 && range_1 <= 4096
+//@   loop 1 invariant forall s:Str :: maphas(wordLookup, s) ==> 0 <= mapval(wordLookup, s) && mapval(wordLookup, s) < 4096
+//@   loop 2 invariant 0 <= range_2 && range_2 <= wordCount && 0 <= buffering && buffering <= 2 && 2*resultIndex + buffering == 3*range_2 && resultIndex >= 0
+//@   loop 2 invariant 0 <= current && current < spec.pow2(4*buffering)
+//@   loop 3 invariant 1 <= buffering && buffering <= 5 && 2*resultIndex + buffering == 3*(range_2+1) && resultIndex >= 0 && 0 <= current && current < spec.pow2(4*buffering)
+
+//@ func MnemonicToSeedBin
+//@   props C14 C10 C09 C15
+//@   panics "word count = %d must be even"
+//@   panics "invalid word in mnemonic"
+//@   panics "unexpected MnemonicToSeedBin output size"
+
+//@ func MnemonicToExtendedSeedBin
+//@   props C14 C10 C09 C15
+//@   panics "word count = %d must be even"
+//@   panics "invalid word in mnemonic"
+//@   panics "unexpected MnemonicToExtendedSeedBin output size"
